@@ -6,6 +6,7 @@ cd $WT || exit 2
 # demonstrations gated on salsa's shuttle feature need it enabled (one Runner per test thread)
 FEAT=""; TAIL=""
 if grep 'feature = "shuttle"' $OUT/$T.rs 2>/dev/null | grep -vq 'not(feature = "shuttle")'; then FEAT="--features shuttle"; TAIL="-- --test-threads=1"; fi
+if grep -q 'feature = "persistence"' $OUT/$T.rs 2>/dev/null; then FEAT="--features persistence"; fi
 git checkout -q -- . ; git clean -fdq tests/
 exec > $LOG 2>&1
 echo "== demo on unmodified source"
